@@ -46,14 +46,14 @@ def feature_cfgs(seed, tier):
         out.append({"meta": {"imports": {"al": "gv.test/fix/alpha"}, "default_must_getter": True}, "services": {"t": {"type": ty or "T", "getter": "GetT"}, "u": {"type": ty or "*T", "getter": "GetU", "must_getter": False}}})
     for sc in scopes:
         sv = {"constructor": "al.NewA", "arguments": lits + ["@dep", "!tagged tg", "!value al.Value", "$gontainer", "%p%", "a %p% %%"],
-              "calls": [["SetX", [1, "@dep"]], ["WithY", ["%p%"], True], ["Init"]], "fields": {"Name": "%p%", "Dep": "@dep", "Port": 7}, "tags": ["tg", {"name": "t2", "priority": -5}],
+              "calls": [["SetX", [1, "@dep"]], ["WithY", ["%p%"], True], ["Init"]], "fields": {"Name": "%p%", "Dep": "@dep", "Port": 7}, "tags": [{"name": "t2", "priority": -5}, "t3"],
               "getter": "GetMain", "type": "*al.T"}
         if sc:
             sv["scope"] = sc
         out.append({"meta": {"imports": {"al": "gv.test/fix/alpha", "fmt": "example.com/other", "github.com": "example.com/lib"}, "functions": {"fn": "al.Fn", "up": "\"example.com/lib\".GetEnv"}},
                     "parameters": {"p": "x", "q": "%fn(\"a\", 1)% %env(\"HOME\", \"d\")% %envInt(\"N\", 3)%", "r": "%up()%", "t": "%todo(\"later\")%", "n": None, "f": 2.5},
                     "services": {"main": sv, "dep": {"value": "fmt.Value", "tags": ["tg"]}, "gh": {"constructor": "github.com/sub.NewB", "todo": False}, "td": {"todo": True}},
-                    "decorators": [{"tag": "tg", "decorator": "al.Decorate", "arguments": ["%p%", "@dep", 1]}, {"tag": "t2", "decorator": "Wrap"}]})
+                    "decorators": [{"tag": "tg", "decorator": "al.Decorate", "arguments": ["%p%", 1]}, {"tag": "t2", "decorator": "Wrap", "arguments": ["@dep", "!tagged tg"]}]})
     for lit in [cfggen.Raw(".inf"), cfggen.Raw("-.inf"), cfggen.Raw(".nan")]:
         out.append({"parameters": {"p": lit}})
         out.append({"services": {"s": {"constructor": "NewA", "arguments": [lit]}}})
@@ -86,6 +86,9 @@ def run(tier, seed, replay):
     nrend = codegen.render_correspondence(out, env, tooldir, specs, obs, "C01")
     accepted = [(k, o) for k, o in enumerate(obs) if o.get("exit") == 0 and o.get("out_content")]
     dist = {"accepted_normal": 0, "accepted_stub": 0, "rejected": len(specs) - len(accepted), "compile_failures": 0}
+    for k, sp in enumerate(specs):
+        if sp.get("what") == ["feature"] and obs[k].get("exit") != 0:
+            out.broke("harness: a feature configuration of the C01 matrix is not accepted", {"files": sp["files"], "errors": obs[k].get("errors")})
     nontrivial = set()
     for stub in (False, True):
         items = [("c%04d" % k, o["out_content"]) for k, o in accepted if bool(specs[k]["flags"].get("stub")) == stub]
